@@ -97,9 +97,9 @@ def root_of(fn: ast.FunctionDef, expr: ast.expr, depth: int = 8, _seen=None) -> 
             if expr.id in _params(fn):
                 return ("param", expr.id)
             return ("unknown", expr, f"'{expr.id}' has no binding in the function")
-        if expr.id in _params(fn):
-            return ("unknown", binds[0][2], f"parameter '{expr.id}' is rebound")
         if expr.id in _seen:
+            if expr.id in _params(fn):
+                return ("param", expr.id)  # inside a rebinding of the parameter: the value it had on entry
             return ("unknown", expr, f"'{expr.id}' is defined through itself")
         roots = []
         for v, pos, stmt in binds:
@@ -118,6 +118,11 @@ def root_of(fn: ast.FunctionDef, expr: ast.expr, depth: int = 8, _seen=None) -> 
         if unk:
             return unk
         keys = {(r[0], r[1] if r[0] != "call" else ast.unparse(r[1])) for r in roots}
+        if expr.id in _params(fn):
+            # a rebound parameter: on any path the value is the one on entry or one of the rebindings
+            if keys == {("param", expr.id)}:
+                return ("param", expr.id)
+            return ("unknown", binds[0][2], f"parameter '{expr.id}' is rebound to something else")
         if len(keys) == 1:
             return roots[0]
         return ("unknown", binds[0][2], f"'{expr.id}' has bindings with different origins")
@@ -160,6 +165,8 @@ def root_of(fn: ast.FunctionDef, expr: ast.expr, depth: int = 8, _seen=None) -> 
         b = root_of(fn, expr.value, depth - 1, _seen)
         if b[0] in ("param", "chain", "elem"):
             return ("elem", f"{b[1]}[{ast.unparse(expr.slice)}]")
+        if b[0] == "call":
+            return ("elem", f"{ast.unparse(b[1])[:40]}[{ast.unparse(expr.slice)}]")
         return b if b[0] == "broken" else ("unknown", expr, "an element of something not followed")
     if isinstance(expr, ast.BinOp):
         return ("broken", expr, "arithmetic on the container")
@@ -175,3 +182,158 @@ def root_of(fn: ast.FunctionDef, expr: ast.expr, depth: int = 8, _seen=None) -> 
             return a
         return ("unknown", expr, "two alternatives with different origins")
     return ("unknown", expr, f"{type(expr).__name__} not followed")
+
+
+# ---------------------------------------------------------------------------
+# walking a value back through the package: attribute <- constructor parameter <- argument at every construction <- ...
+# ---------------------------------------------------------------------------
+def expand_kwargs(fn, call: ast.Call, target_fi) -> dict:
+    """bind_args, with a  **name  argument expanded when `name` is one dict literal with constant keys"""
+    from .model import AnalysisError, bind_args
+
+    b = dict(bind_args(target_fi, call))
+    for kw in call.keywords:
+        if kw.arg is None:
+            d = kw.value
+            if isinstance(d, ast.Name):
+                defs = [s.value for s in walk_no_nested(fn) if isinstance(s, ast.Assign) and len(s.targets) == 1 and isinstance(s.targets[0], ast.Name) and s.targets[0].id == d.id]
+                touched = [n for n in walk_no_nested(fn) if isinstance(n, ast.Subscript) and isinstance(n.ctx, ast.Store) and isinstance(n.value, ast.Name) and n.value.id == d.id]
+                touched += [n for n in walk_no_nested(fn) if isinstance(n, ast.Call) and isinstance(n.func, ast.Attribute) and n.func.attr in MUTATORS and isinstance(n.func.value, ast.Name) and n.func.value.id == d.id]
+                if len(defs) != 1 or touched:
+                    raise AnalysisError(f"**{d.id}: the dictionary is not a single literal")
+                d = defs[0]
+            if not (isinstance(d, ast.Dict) and all(isinstance(k, ast.Constant) and isinstance(k.value, str) for k in d.keys)):
+                raise AnalysisError(f"**{ast.unparse(kw.value)[:40]}: keys are not string literals")
+            for k, v in zip(d.keys, d.values):
+                b[k.value] = v
+    return b
+
+
+def call_sites(prog, tfi):
+    """(calling function, Call node, bound arguments) of every call of tfi in the package (by terminal name); for a
+    constructor:  Cls(...) of the class and of subclasses inheriting it,  Cls.__init__(self, ...)  and
+    super().__init__(...)  of direct subclasses"""
+    funcs = list(prog.funcs.values())
+    if tfi.name != "__init__":
+        for fi in funcs:
+            for n in walk_no_nested(fi.node):
+                if isinstance(n, ast.Call) and (attr_chain(n.func) or "").split(".")[-1] == tfi.name:
+                    yield fi, n, expand_kwargs(fi.node, n, tfi)
+        return
+    cq = tfi.qualname.rsplit(".", 1)[0]
+    names = {tfi.cls} | {c.name for c in prog.subclasses(cq) if prog.method(c.qualname, "__init__") is tfi}
+    direct = {c.name for c in prog.subclasses(cq) if "__init__" in c.methods and prog.mro(c.qualname)[1:] and prog.method(prog.mro(c.qualname)[1].qualname, "__init__") is tfi}
+    for fi in funcs:
+        for n in walk_no_nested(fi.node):
+            if not isinstance(n, ast.Call):
+                continue
+            ch = attr_chain(n.func) or ""
+            if ch.split(".")[-1] in names:
+                yield fi, n, expand_kwargs(fi.node, n, tfi)
+            elif ch.endswith(".__init__") and ch.split(".")[-2] in names and n.args:
+                shifted = ast.Call(func=n.func, args=n.args[1:], keywords=n.keywords)
+                ast.copy_location(shifted, n)
+                yield fi, n, expand_kwargs(fi.node, shifted, tfi)
+            elif isinstance(n.func, ast.Attribute) and n.func.attr == "__init__" and isinstance(n.func.value, ast.Call) and attr_chain(n.func.value.func) == "super" and fi.cls in direct and fi.name == "__init__":
+                yield fi, n, expand_kwargs(fi.node, n, tfi)
+
+
+class Walk:
+    """backward walk from an attribute of a class to the places its value comes from.
+    links    [(description, function, node)]            every hand-over found intact
+    broken   [(description, function, node, why)]       hand-overs that change the value
+    sources  [(kind, text, function, node)]             where the walk ends: 'api' (a parameter nobody in the package passes),
+                                                        'call' / 'elem' (a value made or picked there), 'default', 'none'
+    """
+
+    def __init__(self, prog, stop_at=()):
+        self.prog = prog
+        self.links, self.broken, self.sources = [], [], []
+        self._seen = set()
+        self.stop_at = set(stop_at)  # qualnames of functions whose parameters are taken as sources
+
+    def _hierarchy(self, cq):
+        return {c.qualname for c in self.prog.mro(cq)} | {c.qualname for c in self.prog.subclasses(cq)}
+
+    def from_attr(self, cq: str, attr: str):
+        from .model import AnalysisError
+
+        key = ("attr", cq, attr)
+        if key in self._seen:
+            return
+        self._seen.add(key)
+        hier = self._hierarchy(cq)
+        found = 0
+        for fi in self.prog.funcs.values():
+            if not fi.cls:
+                own = False
+            else:
+                own = fi.qualname.rsplit(".", 1)[0] in hier
+            for n in walk_no_nested(fi.node):
+                tgt = None
+                if isinstance(n, ast.Assign):
+                    for t in n.targets:
+                        if isinstance(t, ast.Attribute) and t.attr == attr and isinstance(t.value, ast.Name) and t.value.id == "self" and own:
+                            tgt = t
+                    if tgt is not None:
+                        found += 1
+                        self._value(fi, n.value, f"{fi.qualname}: self.{attr}", n)
+                elif isinstance(n, ast.AugAssign) and isinstance(n.target, ast.Attribute) and n.target.attr == attr and own and attr_chain(n.target) == f"self.{attr}":
+                    found += 1
+                    self.broken.append((f"{fi.qualname}: self.{attr}", fi, n, "updated in place"))
+                elif isinstance(n, ast.Call) and isinstance(n.func, ast.Attribute) and n.func.attr in MUTATORS and own and attr_chain(n.func.value) == f"self.{attr}":
+                    self.broken.append((f"{fi.qualname}: self.{attr}", fi, n, f"modified in place by .{n.func.attr}()"))
+                elif isinstance(n, ast.Subscript) and isinstance(n.ctx, (ast.Store, ast.Del)) and own and attr_chain(n.value) == f"self.{attr}":
+                    self.broken.append((f"{fi.qualname}: self.{attr}", fi, n, "an element is overwritten"))
+        if not found:
+            raise AnalysisError(f"no store of self.{attr} in the hierarchy of {cq}")
+
+    def from_param(self, tfi, pname: str):
+        from .model import AnalysisError
+
+        key = ("param", tfi.qualname, pname)
+        if key in self._seen:
+            return
+        self._seen.add(key)
+        if tfi.qualname in self.stop_at:
+            self.sources.append(("api", f"{tfi.qualname}({pname})", tfi, tfi.node))
+            return
+        sites = list(call_sites(self.prog, tfi))
+        if not sites:
+            self.sources.append(("api", f"{tfi.qualname}({pname})", tfi, tfi.node))
+            return
+        tname = tfi.cls if tfi.name == "__init__" else tfi.name
+        for fi, n, b in sites:
+            if pname not in b:
+                if pname in tfi.defaults():
+                    self.sources.append(("default", f"{tname}({pname}={ast.unparse(tfi.defaults()[pname])[:30]}) at {fi.qualname}", fi, n))
+                    continue
+                raise AnalysisError(f"{self.prog.loc(fi, n)}: argument {pname} of {tname}(...) not found")
+            self._value(fi, b[pname], f"{fi.qualname}: {pname} of {tname}()", n)
+
+    def _value(self, fi, value, desc, node):
+        from .model import AnalysisError
+
+        if isinstance(value, ast.Constant) and value.value is None:
+            self.sources.append(("none", desc, fi, node))
+            return
+        r = root_of(fi.node, value)
+        if r[0] == "unknown":
+            raise AnalysisError(f"{self.prog.loc(fi, node)}: origin of {ast.unparse(value)[:50]} not understood ({r[2]})")
+        if r[0] == "broken":
+            self.broken.append((desc, fi, r[1] if hasattr(r[1], "lineno") else node, r[2]))
+            return
+        if r[0] == "param":
+            self.links.append((f"{desc} <- parameter {r[1]}", fi, node))
+            self.from_param(fi, r[1])
+        elif r[0] == "chain":
+            parts = r[1].split(".")
+            if parts[0] == "self" and len(parts) == 2 and fi.cls:
+                self.links.append((f"{desc} <- {r[1]}", fi, node))
+                self.from_attr(fi.qualname.rsplit(".", 1)[0], parts[1])
+            else:
+                self.sources.append(("chain", r[1], fi, node))
+        elif r[0] == "elem":
+            self.sources.append(("elem", r[1], fi, node))
+        elif r[0] == "call":
+            self.sources.append(("call", ast.unparse(r[1])[:60], fi, node))
